@@ -177,6 +177,7 @@ namespace Givaro {
     template <class Domain>
     inline Degree& Poly1Dom<Domain,Dense>::val(Degree& d, const Rep& P) const
     {
+        setDegree(const_cast<Rep&>(P)); // a zero polynomial stored as [0], [0,0], ... has no valuation either
         size_t sz = P.size();
         if (sz ==0) {
             return d = Degree::deginfty;
